@@ -210,6 +210,22 @@ func c16Run(r *Run) {
 						}
 					}
 				}
+				// a reflective accessor of this package: helper(…, "x") whose parameter goes to FieldByName
+				if callee := declOf[calleeOf(info, x)]; callee != nil {
+					k := 0
+					for _, f := range callee.Type.Params.List {
+						for _, nm := range f.Names {
+							if k < len(x.Args) && c16ParamToFieldByName(info, callee, info.Defs[nm]) {
+								if bl, ok := ast.Unparen(x.Args[k]).(*ast.BasicLit); ok {
+									if s, err := strconv.Unquote(bl.Value); err == nil {
+										reads[s] = true
+									}
+								}
+							}
+							k++
+						}
+					}
+				}
 				// node handed whole to another function/method
 				for _, a := range x.Args {
 					if id, ok := ast.Unparen(a).(*ast.Ident); ok && info.Uses[id] == obj {
@@ -709,4 +725,23 @@ func methodReads(r *Run, f *types.Func) map[string]bool {
 		})
 	}
 	return out
+}
+
+// c16ParamToFieldByName: the function hands its parameter p to a FieldByName call.
+func c16ParamToFieldByName(info *types.Info, fd *ast.FuncDecl, p types.Object) bool {
+	if p == nil || fd.Body == nil {
+		return false
+	}
+	found := false
+	ast.Inspect(fd.Body, func(n ast.Node) bool {
+		if c, ok := n.(*ast.CallExpr); ok && len(c.Args) == 1 {
+			if se, ok := ast.Unparen(c.Fun).(*ast.SelectorExpr); ok && se.Sel.Name == "FieldByName" {
+				if id, ok := ast.Unparen(c.Args[0]).(*ast.Ident); ok && info.Uses[id] == p {
+					found = true
+				}
+			}
+		}
+		return !found
+	})
+	return found
 }
